@@ -1,5 +1,5 @@
 use laythe_core::managed::Trace;
-use laythe_core::object::{Class, LyStr};
+use laythe_core::object::{Channel, Class, LyStr};
 use laythe_core::{Allocator, ObjRef};
 use laythe_core::{
   hooks::{GcContext, HookContext, ValueContext},
@@ -93,5 +93,10 @@ impl ValueContext for Vm {
 
   fn scan_roots(&mut self) {
     self.scan_roots();
+  }
+
+  fn use_channel(&mut self, channel: ObjRef<Channel>) {
+    let mut fiber = self.fiber;
+    fiber.add_used_channel(self.gc.borrow_mut(), self, channel);
   }
 }
